@@ -14,6 +14,9 @@
   are derived) are in `Luqum.Lemmas.Aht`.
 -/
 import Luqum.Lemmas.Aht
+import Luqum.Lemmas.AhtGlueChain
+import Luqum.Lemmas.AhtGlueAht
+import Luqum.Lemmas.AhtGluePad
 
 namespace Luqum.Props.C13
 open Luqum Luqum.Lemmas.Aht
@@ -226,5 +229,279 @@ theorem aht_str_noblank {t t' : Tree} (h : aht t = some t') (s : NumStyle) :
 example :
     (aht (.op .and [.term .word ['a'] {}, .unary .not (.term .word ['b'] {}) {}] {})).map (·.full .norm)
       = some "a AND NOT b".toList := by decide
+
+/-! ### (vi) the round trip: the printed result is accepted by the parser and parses to an equal tree
+
+  The helper lemmas are in `Luqum/Lemmas/AhtGlue*.lean`.  The printed result of `auto_head_tail` is
+  the spelling of its tokens with the separators `auto_head_tail` guarantees (`spaced`); every place
+  where two tokens stay glued is examined in `Luqum.Lemmas.AhtGlue.chain_spaced`.  Exactly two glued
+  adjacencies are not read back as written (findings KF8 and KF9, excluded by `safeAdj`); the theorems
+  are therefore `_partial`. -/
+
+section RoundTrip
+open Luqum.Lemmas.AhtGlue
+open Luqum.Props.Reparse (printable)
+
+export Luqum.Lemmas.AhtGlue (noLayout expressible safeAdj timeName spaced)
+
+/-- **built without layout**: every head and every tail of every node is empty -/
+example (k : TermK) (v : Str) (l : Lay) (n : Str) (e : Tree) (xs : List Tree) (o : OpK) :
+    noLayout (.term k v l) = (l.head.isEmpty && l.tail.isEmpty) ∧
+    noLayout (.field n e l) = (l.head.isEmpty && l.tail.isEmpty && noLayout e) ∧
+    noLayout (.op o xs l) = (l.head.isEmpty && l.tail.isEmpty && noLayouts xs) := ⟨rfl, rfl, rfl⟩
+
+/-- **a shape the grammar can express**: canonical with respect to the precedences (`CanonAt`: the
+operands of `AND` are not operations, those of `OR` are not `OR` / implicit operations, the operands
+of `+` `-` `NOT`, field values and boosted expressions are not operations, `~` applies to a word or a
+phrase, range bounds are words / phrases, possibly prohibited, operations have two operands at least,
+there is no `NoneItem` and no `BoolOperation`); words and field names that are not reserved words
+(`WordsOK`); numerals that are printed and read back as the same number (`numsOK`); words, phrases,
+regexes and field names that lex as exactly one token of their kind (`validTexts`).
+
+Every parse result is `expressible` (`expressible_of_parse`); conversely an `expressible` tree is
+equal (`==`) to the parse result of some text (`expressible_parse`; the text is the tree printed with
+a blank around every node).  The converse of the latter does not hold literally, because `==` does
+not compare the `implicit` flag of a degree / force that `numsOK` constrains: a tree with an
+*implicit* force of 2 is equal to the parse of `a^2` but is printed `a^`. -/
+example (t : Tree) :
+    expressible t = (CanonAt false t && WordsOK t && numsOK t && validTexts t) := rfl
+
+/-- **the glued adjacencies that are read back as written**: everywhere, except
+(KF8) at a field whose name ends with `T\d\d` or `T\d\d:\d\d` (`timeName`) and whose value is printed
+with two digits first (`startsDD`; the digits are those of `\d`), and
+(KF9) at a `From` / `To` that is not inclusive and whose operand is printed with `=` first -/
+example (n : Str) (e : Tree) (l : Lay) (k : ORK) (inc : Bool) :
+    safeAdj (.field n e l) = (!(timeName n && startsDD (e.full .norm)) && safeAdj e) ∧
+    safeAdj (.orange k e inc l) = ((inc || (e.full .norm).head? != some '=') && safeAdj e) ∧
+    timeName n = (tddR n.reverse || tmmR n.reverse) := ⟨rfl, rfl, rfl⟩
+
+/-- every parse result is `expressible` -/
+theorem expressible_of_parse (s : Str) (t : Tree) (h : parse s = .ok t) : expressible t = true := by
+  simp only [expressible, Bool.and_eq_true]
+  exact ⟨⟨⟨Reparse.parse_canon s t h, Reparse.parse_wordsOK s t h⟩, Reparse.parse_numsOK s t h⟩,
+    (Reparse.parse_validTexts s t h).1⟩
+
+/-- conversely **every `expressible` tree is equal (`==`) to the parse result of some text**: the
+tree printed with a blank before and after every node (`padAll`) -/
+theorem expressible_parse (t : Tree) (he : expressible t = true) :
+    ∃ s r, parse s = .ok r ∧ r.eqv t = true := by
+  obtain ⟨r, hr, hrt⟩ := Reparse.reparse_of_printable (padAll t) (printable_padAll t he)
+  exact ⟨_, r, hr, C09.eqv_trans _ _ _ hrt (eqv_padAll t)⟩
+
+/-- ... and then the parse result is `expressible` too -/
+theorem expressible_parse' (t : Tree) (he : expressible t = true) :
+    ∃ s r, parse s = .ok r ∧ r.eqv t = true ∧ expressible r = true := by
+  obtain ⟨s, r, hr, hrt⟩ := expressible_parse t he
+  exact ⟨s, r, hr, hrt, expressible_of_parse s r hr⟩
+
+/-- the `implicit` flag of a force is constrained by `expressible` but not seen by `==` -/
+example :
+    let t : Tree := .boost (.term .word "a".toList {}) { val := { coeff := 2 }, implicit := true } {}
+    expressible t = false ∧ t.str = "a^".toList ∧
+    (match parse "a^2".toList with | .ok r => r.eqv t | .error _ => false) = true := by
+  decide +kernel
+
+/-- `auto_head_tail` does not fail on an `expressible` tree -/
+theorem aht_some_of_expressible (t : Tree) (he : expressible t = true) : ∃ t', aht t = some t' := by
+  simp only [expressible, Bool.and_eq_true] at he
+  have := aht_some_of_canon false t he.1.1.1
+  cases h : aht t with
+  | none => rw [h] at this; cases this
+  | some t' => exact ⟨t', rfl⟩
+
+/-- **the result of `auto_head_tail` satisfies all the hypotheses of the print-and-reparse theorem**
+(`Reparse.printable`: blank layout, canonical form, words, numerals, valid texts, adjacency), for an
+`expressible` input with a blank layout and without the adjacencies KF8 / KF9 -/
+theorem aht_printable_partial {t t' : Tree} (h : aht t = some t') (hws : t.blankLayout = true)
+    (he : expressible t = true) (hs : safeAdj t = true) : printable t' = true := by
+  simp only [expressible, Bool.and_eq_true] at he
+  obtain ⟨⟨⟨hc, hw⟩, hn⟩, ht⟩ := he
+  have hrel := aht_layRel t h
+  obtain ⟨e1, e2, e3, e4⟩ := expressible_of_strip (layRel_strip t' t hrel)
+  rw [← e1] at hc; rw [← e2] at hw; rw [← e3] at hn; rw [← e4] at ht
+  have hbl : t'.blankLayout = true := layRel_blank t' t hrel hws
+  have hsafe : safeAdj t' = true := safeAdj_aht t false h (e1 ▸ hc) hs
+  have hbp := Tree.pcs_blank .norm t' [] rfl hbl
+  have hchain := chain_spaced t' [] [] (canon_noNone false t' hc) (aht_spaced t h) hbl hsafe rfl
+    (by rw [List.append_nil]; exact contOK_blank hbp.2)
+  rw [List.append_nil] at hchain
+  have hvalid := Reparse.pieces_valid .norm t' ht (Reparse.validNums_of_numsOK t' hn)
+  have hglue : LX.treeGluesOK .norm t' = true := by
+    refine gluesOK_of_chainOK _ _ (fun p hp => ?_) hchain
+    obtain ⟨c, xs, hx, _⟩ := validTok_cons (hvalid p hp)
+    rw [hx]; simp
+  simp only [printable, Bool.and_eq_true]
+  exact ⟨⟨⟨⟨⟨hbl, hc⟩, hw⟩, hn⟩, ht⟩, hglue⟩
+
+/-- **C13 (vi), trees with some layout.** `parse(str(auto_head_tail(tree))) == tree` for every tree
+whose heads and tails are blank (`\s*`; they may be empty, all of them or some of them), whose shape
+the grammar can express (`expressible`) and that has none of the two adjacencies KF8 / KF9
+(`safeAdj`).  `str` prints the root without its own head and tail.
+
+Partial: the hypothesis `safeAdj` excludes the findings KF8 (`T12:30`) and KF9 (`<=b`), for which the
+conclusion is false (witnesses below). -/
+theorem aht_roundtrip_partial_layout (t : Tree) (hws : t.blankLayout = true)
+    (he : expressible t = true) (hs : safeAdj t = true) :
+    ∃ t' r, aht t = some t' ∧ parse t'.str = .ok r ∧ r.eqv t = true := by
+  obtain ⟨t', h⟩ := aht_some_of_expressible t he
+  have hp := aht_printable_partial h hws he hs
+  simp only [printable, Bool.and_eq_true] at hp
+  obtain ⟨⟨⟨⟨⟨h1, h2⟩, h3⟩, h4⟩, h5⟩, h6⟩ := hp
+  obtain ⟨r, hr, hrt⟩ := Reparse.reparse_str_body t' h1 h2 h3 h4 h5 h6
+  exact ⟨t', r, h, hr, C09.eqv_trans _ _ _ hrt (aht_eqv h)⟩
+
+/-- the same for `__str__(head_tail=True)` (the head and the tail of the root are printed too) -/
+theorem aht_roundtrip_strHT_partial_layout (t : Tree) (hws : t.blankLayout = true)
+    (he : expressible t = true) (hs : safeAdj t = true) :
+    ∃ t' r, aht t = some t' ∧ parse t'.strHT = .ok r ∧ r.eqv t = true := by
+  obtain ⟨t', h⟩ := aht_some_of_expressible t he
+  obtain ⟨r, hr, hrt⟩ := Reparse.reparse_of_printable t' (aht_printable_partial h hws he hs)
+  exact ⟨t', r, h, hr, C09.eqv_trans _ _ _ hrt (aht_eqv h)⟩
+
+/-- **C13 (vi).** For a tree built without layout (`noLayout`) whose shape the grammar can express
+(`expressible`) and that has none of the two adjacencies KF8 / KF9 (`safeAdj`):
+`parse(str(auto_head_tail(tree))) == tree`.
+
+Partial: `safeAdj` excludes the findings KF8 and KF9 (see `aht_roundtrip_partial_layout`). -/
+theorem aht_roundtrip_partial (t : Tree) (hnl : noLayout t = true) (he : expressible t = true)
+    (hs : safeAdj t = true) :
+    ∃ t' r, aht t = some t' ∧ parse t'.str = .ok r ∧ r.eqv t = true :=
+  aht_roundtrip_partial_layout t (noLayout_blank t hnl) he hs
+
+/-- the root of the result has the head and the tail of the root of the input: for a tree built
+without layout, `__str__(head_tail=True)` prints the same text as `str` -/
+theorem aht_strHT_eq_str {t t' : Tree} (h : aht t = some t') (hnl : noLayout t = true) :
+    t'.strHT = t'.str := by
+  have hl := aht_root_lay h
+  have h0 : t.lay.head = [] ∧ t.lay.tail = [] := by
+    cases t <;> simp_all [noLayout, Tree.lay]
+  have hh : t'.lay.head = [] := by rw [hl]; exact h0.1
+  have ht : t'.lay.tail = [] := by rw [hl]; exact h0.2
+  cases t' <;> simp_all [Tree.strHT, Tree.str, Tree.full, Tree.body, Tree.lay]
+
+/-- the same for `__str__(head_tail=True)` -/
+theorem aht_roundtrip_strHT_partial (t : Tree) (hnl : noLayout t = true) (he : expressible t = true)
+    (hs : safeAdj t = true) :
+    ∃ t' r, aht t = some t' ∧ parse t'.strHT = .ok r ∧ r.eqv t = true :=
+  aht_roundtrip_strHT_partial_layout t (noLayout_blank t hnl) he hs
+
+/-! #### non-vacuity and negative witnesses (kernel-checked) -/
+
+private def wd (s : String) : Tree := .term .word s.toList {}
+private def phr (s : String) : Tree := .term .phrase s.toList {}
+
+/-- `parse(str(auto_head_tail(t))) == t`, by evaluation -/
+private def roundTrips (t : Tree) : Bool :=
+  match aht t with
+  | some t' => (match parse t'.str with | .ok r => r.eqv t | .error _ => false)
+  | none => false
+
+/-- a tree built without any layout: AND, OR, the implicit operation, NOT, `+`, `-`, a field, a field
+group, a group, a range (with a prohibited bound), a fuzzy (implicit degree), a proximity, boosts,
+`>=`, `<`, a field with a time-like name, a regex -/
+def sampleRT : Tree :=
+  .op .unk [
+    .op .or [
+      .op .and [wd "a", .unary .not (wd "b") {}] {},
+      .unary .plus (.boost (.approx .fuzzy (wd "c") { val := Compl.fuzzyDflt, implicit := true } {})
+        { val := { coeff := 2 } } {}) {}] {},
+    .unary .prohibit (.field "f".toList
+      (.group .fieldGroup (.op .unk [wd "x", phr "\"y z\""] {}) {}) {}) {},
+    .group .group (.range (.unary .prohibit (wd "1") {}) (phr "\"9\"") true false {}) {},
+    .approx .proximity (phr "\"p q\"") { val := { coeff := 3 } } {},
+    .boost (.orange .from (wd "5") true {}) { val := { coeff := 25, exp := -1 } } {},
+    .orange .to (wd "6") false {},
+    .field "T12".toList (wd "x30") {},
+    .term .regex "/re/".toList {}] {}
+
+/-- all the hypotheses of `aht_roundtrip_partial` hold for the sample -/
+example : noLayout sampleRT = true ∧ expressible sampleRT = true ∧ safeAdj sampleRT = true := by
+  decide +kernel
+
+/-- printed as it is, the sample is one word; `auto_head_tail` inserts the blanks that are needed
+and no other -/
+example :
+    sampleRT.str = "aANDNOTbOR+c~^2-f:(x\"y z\")([-1TO\"9\"})\"p q\"~3>=5^2.5<6T12:x30/re/".toList ∧
+    (aht sampleRT).map Tree.str = some
+      "a AND NOT b OR +c~^2 -f:(x \"y z\") ([-1 TO \"9\"}) \"p q\"~3 >=5^2.5 <6 T12:x30 /re/".toList := by
+  decide +kernel
+
+/-- the theorem applied to the sample ... -/
+example : ∃ t' r, aht sampleRT = some t' ∧ parse t'.str = .ok r ∧ r.eqv sampleRT = true :=
+  aht_roundtrip_partial sampleRT (by decide +kernel) (by decide +kernel) (by decide +kernel)
+example : ∃ t' r, aht sampleRT = some t' ∧ parse t'.strHT = .ok r ∧ r.eqv sampleRT = true :=
+  aht_roundtrip_strHT_partial sampleRT (by decide +kernel) (by decide +kernel) (by decide +kernel)
+
+/-- ... and cross-checked by evaluation -/
+example : roundTrips sampleRT = true ∧
+    (aht sampleRT).map (fun t' => printable t' && spaced t') = some true := by decide +kernel
+
+/-- a tree with some layout (a tab as the head of an operand of AND, a tail on a field value): the
+hypotheses of `aht_roundtrip_partial_layout` hold, and the round trip by evaluation -/
+example :
+    let t : Tree := .op .and [.term .word "a".toList { head := "\t".toList },
+      .field "T12".toList (.term .word "30".toList { head := " ".toList, tail := "  ".toList }) {}] {}
+    noLayout t = false ∧ t.blankLayout = true ∧ expressible t = true ∧ safeAdj t = true ∧
+    (aht t).map Tree.str = some "\ta AND T12: 30  ".toList ∧ roundTrips t = true := by
+  decide +kernel
+
+/-- **KF8**: `SearchField('T12', Word('30'))`, built without layout and expressible, violates
+`safeAdj`; `auto_head_tail` leaves it as it is, it is printed `T12:30`, which is one word for the
+lexer: the round trip fails -/
+example :
+    let t : Tree := .field "T12".toList (wd "30") {}
+    noLayout t = true ∧ expressible t = true ∧ safeAdj t = false ∧
+    (aht t).map Tree.str = some "T12:30".toList ∧
+    (parse "T12:30".toList).map Tree.str = .ok "T12:30".toList ∧
+    (parse "T12:30".toList).map Tree.className = .ok "Word" ∧
+    roundTrips t = false := by decide +kernel
+
+/-- the same with the seconds: the field `T12:30` with the value `45` -/
+example :
+    let t : Tree := .field "T12:30".toList (wd "45") {}
+    noLayout t = true ∧ expressible t = true ∧ safeAdj t = false ∧ roundTrips t = false := by
+  decide +kernel
+
+/-- ... and with a nested field: `T12:30:x` -/
+example :
+    let t : Tree := .field "T12".toList (.field "30".toList (wd "x") {}) {}
+    noLayout t = true ∧ expressible t = true ∧ safeAdj t = false ∧ roundTrips t = false := by
+  decide +kernel
+
+/-- **KF9**: `To(Word('=b'), include=False)`, built without layout and expressible, violates
+`safeAdj`; it is printed `<=b`, which is read as `To(Word('b'), include=True)`: the round trip
+fails -/
+example :
+    let t : Tree := .orange .to (wd "=b") false {}
+    noLayout t = true ∧ expressible t = true ∧ safeAdj t = false ∧
+    (aht t).map Tree.str = some "<=b".toList ∧
+    (match parse "<=b".toList with
+     | .ok r => r.eqv (.orange .to (wd "b") true {})
+     | .error _ => false) = true ∧
+    roundTrips t = false := by decide +kernel
+
+/-- the same for `From` -/
+example :
+    let t : Tree := .orange .from (wd "=b") false {}
+    noLayout t = true ∧ expressible t = true ∧ safeAdj t = false ∧ roundTrips t = false := by
+  decide +kernel
+
+/-- with a blank where the bad adjacency is, `safeAdj` holds and the round trip succeeds -/
+example :
+    let t8 : Tree := .field "T12".toList (.term .word "30".toList { head := " ".toList }) {}
+    let t9 : Tree := .orange .to (.term .word "=b".toList { head := " ".toList }) false {}
+    safeAdj t8 = true ∧ roundTrips t8 = true ∧ safeAdj t9 = true ∧ roundTrips t9 = true := by
+  decide +kernel
+
+/-- the other hypotheses are needed too: a tree that is not canonical (`a AND (b OR c)` without the
+group) comes back as another tree; a head that is not blank is not a separator -/
+example :
+    let u : Tree := .op .and [wd "a", .op .or [wd "b", wd "c"] {}] {}
+    let v : Tree := .op .unk [wd "a", .term .word "b".toList { head := "x".toList }] {}
+    noLayout u = true ∧ expressible u = false ∧ safeAdj u = true ∧ roundTrips u = false ∧
+    v.blankLayout = false ∧ expressible v = true ∧ safeAdj v = true ∧ roundTrips v = false := by
+  decide +kernel
+
+end RoundTrip
 
 end Luqum.Props.C13
